@@ -19,7 +19,7 @@ def phase_laws(ctx, phase):
     with open(os.path.join(d, "Run.tla"), "w") as f:
         f.write(f"---- MODULE Run ----\nEXTENDS {base}\n====\n")
     with open(os.path.join(d, "Run.cfg"), "w") as f:
-        f.write("CONSTANTS\n  NULL = NULL\n  UNDEF = UNDEF\nINIT Init\nNEXT Next\nCHECK_DEADLOCK FALSE\n" +
+        f.write("CONSTANTS\n  NULL = NULL\n  UNDEF = UNDEF\n  ANY = ANY\nINIT Init\nNEXT Next\nCHECK_DEADLOCK FALSE\n" +
                 "".join(f"INVARIANT {x}\n" for x in laws))
     res = tlc.run(d, workers=4, timeout=phase.get("timeout", 300))
     if res["violations"] or res["timed_out"]:
